@@ -5,6 +5,86 @@ From GB Require Import Base.Prelude Base.GoSem Base.DecText Base.GoFmt Base.Byte
 From GB Require Import Model.Cell Proofs.TransEquivCellBytesDefs.
 From GBGen Require Import Consts TransCellBytes.
 Open Scope Z_scope.
+Ltac Zify.zify_post_hook ::= Z.to_euclidean_division_equations.
+
+Ltac unfold_types :=
+  cbv [K_TypeBit K_TypeBlob K_TypeDate K_TypeDateTime K_TypeDateTime2 K_TypeDecimal K_TypeDouble K_TypeEnum K_TypeFloat
+       K_TypeGeometry K_TypeInt24 K_TypeJSON K_TypeLong K_TypeLongBlob K_TypeLongLong K_TypeMediumBlob K_TypeNewDate
+       K_TypeNewDecimal K_TypeNull K_TypeSet K_TypeShort K_TypeString K_TypeTime K_TypeTime2 K_TypeTimestamp
+       K_TypeTimestamp2 K_TypeTiny K_TypeTinyBlob K_TypeVarString K_TypeVarchar K_TypeYear] in *.
+
+(* the model at a literal type code: decide the comparisons of its if-chain *)
+Ltac model_at k :=
+  unfold cell_bytes; unfold_types;
+  repeat match goal with
+  | |- context [k =? ?b] => let v := eval vm_compute in (k =? b) in change (k =? b) with v
+  end;
+  cbn [orb]; unfold decode_enum, band, shr.
+
+(* binary.LittleEndian.UintN(data[pos:pos+k]) followed by any continuation *)
+Lemma rd_le {B} d pos k n (f : Z -> res B) : Z.of_nat pos < 2 ^ 62 -> k = Z.of_nat n -> (n <= 8)%nat ->
+  (do s <- go_slice d (Z.of_nat pos) (i64 (Z.of_nat pos + k)); do v <- go_le s n; f v) = (do v <- le_at d pos n; f v).
+Proof.
+  intros Hp -> Hn. change (2 ^ 62) with 4611686018427387904 in Hp. rewrite i64_small by lia.
+  apply go_slice_le_bind; reflexivity.
+Qed.
+
+(* data[pos:pos+l] against take *)
+Lemma rd_take d pos l : Z.of_nat pos < 2 ^ 62 -> 0 <= l < 2 ^ 61 ->
+  go_slice d (Z.of_nat pos) (i64 (Z.of_nat pos + l)) = take d pos l.
+Proof.
+  intros Hp Hl. change (2 ^ 62) with 4611686018427387904 in Hp. change (2 ^ 61) with 2305843009213693952 in Hl.
+  rewrite i64_small by lia. unfold take.
+  rewrite (go_slice_Z d _ _ pos (Z.to_nat l)) by lia.
+  destruct (slice_cases d pos (Z.to_nat l)) as [(s & E & _ & L)|[E L]]; unfold len.
+  - destruct ((0 <=? l) && (Z.of_nat pos + l <=? Z.of_nat (length d))) eqn:C; [reflexivity|lia].
+  - destruct ((0 <=? l) && (Z.of_nat pos + l <=? Z.of_nat (length d))) eqn:C; [lia|exact E].
+Qed.
+
+(* case split on the first fixed-width read of the goal: a value (with its bounds) or a panic *)
+Ltac case_le W :=
+  match goal with
+  | |- context [le_at ?d ?p ?n] =>
+    let v := fresh "v" in let E := fresh "Ev" in let B := fresh "Bv" in
+    destruct (le_at d p n) as [v| |] eqn:E; cbn [bind flat];
+    [pose proof (le_at_bound d p n v W E) as B; cbn in B| |]
+  end.
+
+(* start of every case: the type code is a literal, both sides unfolded, slice reads turned into le_at *)
+Ltac case_start g k :=
+  let d := fresh "d" in let pos := fresh "pos" in let typ := fresh "typ" in let meta := fresh "meta" in
+  let uns := fresh "uns" in let W := fresh "W" in let Hin := fresh "Hin" in let Hm := fresh "Hm" in let Hp := fresh "Hp" in
+  intros d pos typ meta uns W Hin Hm Hp; cbn [In] in Hin; destruct Hin as [<-|[]];
+  unfold g; model_at k;
+  repeat (rewrite rd_le by (assumption || reflexivity || lia));
+  rewrite ?go_idx_nat.
+
+(* the cases that read one fixed-width integer and format it *)
+Ltac int_case g k :=
+  case_start g k;
+  match goal with W : wf_bytes _ |- _ =>
+    try case_le W; try case_at W
+  end;
+  split_ifs; cbn [bind flat res_sim]; try exact I; try reflexivity; try (rewrite u64_small by lia; reflexivity).
+
+(* MEDIUMINT: three bytes assembled at uint32 / uint64 without a wrap; the sign extension is the same sum *)
+Lemma i32_u32 x : i32 (u32 x) = i32 x.
+Proof. unfold i32, u32. rewrite Z.mod_mod by lia. reflexivity. Qed.
+Lemma int24_u32 a b c : 0 <= a < 256 -> 0 <= b < 256 -> 0 <= c < 256 ->
+  u32 (u32 (a + go_shl u32 b 8) + go_shl u32 c 16) = a + 256 * (b + 256 * (c + 256 * 0)).
+Proof.
+  intros Ha Hb Hc. unfold go_shl. pow_consts.
+  rewrite (u32_small (b * 256)), (u32_small (c * 65536)), (u32_small (a + b * 256)), u32_small by lia. lia.
+Qed.
+Lemma int24_u64 a b c : 0 <= a < 256 -> 0 <= b < 256 -> 0 <= c < 256 ->
+  u64 (u64 (a + go_shl u64 b 8) + go_shl u64 c 16) = a + 256 * (b + 256 * (c + 256 * 0)).
+Proof.
+  intros Ha Hb Hc. unfold go_shl. pow_consts.
+  rewrite (u64_small (b * 256)), (u64_small (c * 65536)), (u64_small (a + b * 256)), u64_small by lia. lia.
+Qed.
+Lemma int24_hi a b c : 0 <= a < 256 -> 0 <= b < 256 -> 0 <= c < 256 ->
+  (a + 256 * (b + 256 * (c + 256 * 0))) / 2 ^ 16 = c.
+Proof. intros Ha Hb Hc. change (2 ^ 16) with 65536. lia. Qed.
 
 Section Cases.
 Variable ffmt : Z -> Z -> bytes.
@@ -12,63 +92,63 @@ Variable tz : Z -> Z.
 Variable jsonp : bytes -> res bytes.
 
 Lemma CellBytes_TypeTiny_ok : case_ok ffmt tz jsonp CellBytes_TypeTiny_g [1].
-Proof.
-  (* TODO *)
-Admitted.
+Proof. int_case CellBytes_TypeTiny_g 1. Qed.
 
 Lemma CellBytes_TypeYear_ok : case_ok ffmt tz jsonp CellBytes_TypeYear_g [13].
-Proof.
-  (* TODO *)
-Admitted.
+Proof. int_case CellBytes_TypeYear_g 13. Qed.
 
 Lemma CellBytes_TypeShort_ok : case_ok ffmt tz jsonp CellBytes_TypeShort_g [2].
-Proof.
-  (* TODO *)
-Admitted.
+Proof. int_case CellBytes_TypeShort_g 2. Qed.
 
 Lemma CellBytes_TypeInt24_ok : case_ok ffmt tz jsonp CellBytes_TypeInt24_g [9].
 Proof.
-  (* TODO *)
-Admitted.
+  case_start CellBytes_TypeInt24_g 9.
+  rewrite ?idx_off by (assumption || (cbn; lia)). to_nat_consts.
+  rewrite le_at_at_le0 by lia. cbn [at_le]. rewrite ?Nat.add_0_r.
+  destruct uns; cbn [negb andb bind].
+  all: repeat case_at W.
+  all: rewrite ?int24_hi by assumption; rewrite ?Z.gtb_ltb.
+  all: split_ifs; cbn [flat res_sim]; try exact I.
+  all: rewrite ?i32_u32, ?int24_u32, ?int24_u64 by assumption; reflexivity.
+Qed.
 
 Lemma CellBytes_TypeLong_ok : case_ok ffmt tz jsonp CellBytes_TypeLong_g [3].
-Proof.
-  (* TODO *)
-Admitted.
+Proof. int_case CellBytes_TypeLong_g 3. Qed.
 
 Lemma CellBytes_TypeFloat_ok : case_ok ffmt tz jsonp (CellBytes_TypeFloat_g ffmt) [4].
-Proof.
-  (* TODO *)
-Admitted.
+Proof. int_case CellBytes_TypeFloat_g 4. Qed.
 
 Lemma CellBytes_TypeDouble_ok : case_ok ffmt tz jsonp (CellBytes_TypeDouble_g ffmt) [5].
-Proof.
-  (* TODO *)
-Admitted.
+Proof. int_case CellBytes_TypeDouble_g 5. Qed.
 
 Lemma CellBytes_TypeLongLong_ok : case_ok ffmt tz jsonp CellBytes_TypeLongLong_g [8].
-Proof.
-  (* TODO *)
-Admitted.
+Proof. int_case CellBytes_TypeLongLong_g 8. Qed.
 
 Lemma CellBytes_TypeEnum_ok : case_ok ffmt tz jsonp CellBytes_TypeEnum_g [247].
-Proof.
-  (* TODO *)
-Admitted.
+Proof. int_case CellBytes_TypeEnum_g 247. Qed.
 
 Lemma CellBytes_TypeSet_ok : case_ok ffmt tz jsonp CellBytes_TypeSet_g [248].
 Proof.
-  (* TODO *)
-Admitted.
+  case_start CellBytes_TypeSet_g 248. cbv zeta. rewrite land_255.
+  rewrite rd_take by (try assumption; change (2 ^ 61) with 2305843009213693952; lia).
+  destruct (take d pos (meta mod 256)); cbn [bind flat res_sim]; auto.
+Qed.
 
 Lemma CellBytes_TypeBit_ok : case_ok ffmt tz jsonp CellBytes_TypeBit_g [16].
 Proof.
-  (* TODO *)
-Admitted.
+  case_start CellBytes_TypeBit_g 16. unfold go_shr. cbv zeta.
+  set (n := u16 (u16 (meta / 2 ^ 8 * 8) + Z.land meta 255)).
+  assert (Hn : 0 <= n < 65536) by (unfold n, u16; apply Z.mod_pos_bound; lia).
+  clearbody n.
+  rewrite (i64_small (n + 7)) by lia. rewrite Z.quot_div_nonneg by lia.
+  assert (Hl : 0 <= (n + 7) / 8 < 65536) by lia.
+  set (l := (n + 7) / 8) in *. clearbody l.
+  rewrite (i64_small l) by lia.
+  rewrite rd_take by (try assumption; change (2 ^ 61) with 2305843009213693952; lia).
+  destruct (take d pos l); cbn [bind flat res_sim]; auto.
+Qed.
 
 Lemma CellBytes_TypeTimestamp_ok : case_ok ffmt tz jsonp (CellBytes_TypeTimestamp_g (print_timestamp tz)) [7].
-Proof.
-  (* TODO *)
-Admitted.
+Proof. int_case CellBytes_TypeTimestamp_g 7. Qed.
 
 End Cases.
